@@ -34,6 +34,7 @@ type plan struct {
 	async   bool   // the handler returns without answering; the answer comes from another goroutine on release
 	answers int    // calls of Respond (default 1)
 	honour  bool   // FlushOp calls req.Flush() on this request
+	inplace bool   // a Tread is answered the way Ufs does: InitRread, fill the data window, SetRreadCount, Respond
 	overlap string // answer a second time while the first answer is parked at this point of Respond
 }
 
@@ -48,6 +49,8 @@ type lreq struct {
 	entered int64 // clock at handler entry, 0 = never
 	exited  int64 // clock when the implementation's work for it (handler, or the late answer) was over
 	ftype   uint8 // type of the fid at handler entry (the framework clears req.Fid once the request is answered)
+	fidno   uint32
+	fidobj  *g.SrvFid // the fid object the request was handed
 	answer  string
 	nans    int
 	mu      sync.Mutex
@@ -96,6 +99,7 @@ type lifeSess struct {
 	ftoks      []string          // the regions of the fid table, in the order they ran
 	frel       map[*g.SrvFid]int // "the next DecRef of this fid releases the table's reference"
 	fnd        map[int]int       // FidDestroy calls the file server received, by object
+	inUse      []string          // FidDestroy calls made while a request on that fid was still inside the implementation
 	closeEnd   chan bool         // closed when Conn.close has returned
 	closeEnded bool
 	perturb    func(point string)
@@ -450,7 +454,17 @@ func (o *lifeOps) respond(s *lifeSess, q *lreq) {
 	q.mu.Unlock()
 	switch q.typ {
 	case g.Tread:
-		r.RespondRread([]byte(fmt.Sprintf("data-%d-%d", q.rid, q.tag)))
+		data := []byte(fmt.Sprintf("data-%d-%d", q.rid, q.tag))
+		if q.plan.inplace && r.Rc != nil {
+			// writes into the reply buffer without asking whether the request has been answered
+			if g.InitRread(r.Rc, uint32(len(data))) == nil {
+				copy(r.Rc.Data, data)
+				g.SetRreadCount(r.Rc, uint32(len(data)))
+				r.Respond()
+			}
+		} else {
+			r.RespondRread(data)
+		}
 	case g.Tstat:
 		r.RespondRstat(&g.Dir{Name: fmt.Sprintf("n%d", q.rid), Uid: "u", Gid: "g", Muid: "m"})
 	case g.Twalk:
@@ -496,6 +510,8 @@ func (o *lifeOps) do(r *g.SrvReq) {
 	s.mu.Unlock()
 	if r.Fid != nil {
 		q.ftype = r.Fid.Type
+		q.fidno = g.VerifFidNo(r.Fid)
+		q.fidobj = r.Fid
 	}
 	atomic.StoreInt64(&q.entered, s.tick())
 	q.mu.Lock()
@@ -558,6 +574,19 @@ func (o *lifeOps) FidDestroy(f *g.SrvFid) {
 	}
 	s.mu.Lock()
 	s.destroyed = append(s.destroyed, g.VerifFidNo(f))
+	// nobody may still be working on it: a request naming this fid that the implementation was handed
+	// and has not begun to answer
+	for _, q := range s.reqs {
+		if atomic.LoadInt64(&q.entered) == 0 || atomic.LoadInt64(&q.exited) != 0 || q.typ == g.Tattach || q.typ == g.Tauth || q.typ == g.Tflush || q.typ == g.Tversion {
+			continue
+		}
+		q.mu.Lock()
+		started := q.nans > 0
+		q.mu.Unlock()
+		if !started && q.fidno == g.VerifFidNo(f) && q.fidobj == f {
+			s.inUse = append(s.inUse, fmt.Sprintf("fid %d reported destroyed while request %d (type %d, tag %d) is still inside the implementation", g.VerifFidNo(f), q.rid, q.typ, q.tag))
+		}
+	}
 	if id, ok := s.fobj[f]; ok {
 		s.fnd[id]++
 	} else {
